@@ -122,13 +122,31 @@ def run(ctx):
         ctx.violation("correspondence", "model and mammoth.transforms disagree (call sequence, result or descendants)",
                       dict(metas[i], obligation="correspondence Model/Transforms.v vs mammoth.transforms"), False)
     # through the public API on a real file: transform_document is applied before conversion
-    pkg = gen_xml.XGen(rng).package()
-    data, _ = B.build(pkg)
-    a = mammoth.convert_to_html(io.BytesIO(data))
-    b = mammoth.convert_to_html(io.BytesIO(data), transform_document=transforms.paragraph(lambda p: p))
-    if a.value != b.value:
-        ctx.violation("oracle", "identity transform_document changed convert_to_html's result", {"api": "mammoth.convert_to_html(transform_document=...)",
-                                                                                                  "package": gen_xml.pkg_json(pkg)}, True)
+    # (documents with everything the reader and the converter warn about: the RESULT is the value and the messages)
+    for j in range(40 if ctx.thorough else 12):
+        pkg = gen_xml.XGen(rng, anomalies=0.5, dangling=0.4, hostile=0.2, linked_rate=0.0).package()
+        data, _ = B.build(pkg)
+        ident = [("paragraph", transforms.paragraph(lambda p: p)), ("run", transforms.run(lambda r_: r_)),
+                 ("element_of_type(Text)", transforms.element_of_type(D.Text, lambda t_: t_)), ("plain function", lambda d_: d_)][j % 4]
+        for fn in (mammoth.convert_to_html, mammoth.convert_to_markdown):
+            try:
+                a = fn(io.BytesIO(data))
+                a = (a.value, [(m.type, m.message) for m in a.messages])
+            except Exception as e:
+                a = ("raised", type(e).__name__)
+            try:
+                b = fn(io.BytesIO(data), transform_document=ident[1])
+                b = (b.value, [(m.type, m.message) for m in b.messages])
+            except Exception as e:
+                b = ("raised", type(e).__name__)
+            ctx.count()
+            if a != b:
+                what = "value" if a[0] != b[0] else "messages"
+                ctx.violation("oracle", "an identity transform_document (%s) changed the %s of %s: %s vs %s" % (ident[0], what, fn.__name__, str(b[1] if what == "messages" else b[0])[:120], str(a[1] if what == "messages" else a[0])[:120]),
+                              {"api": "mammoth.%s(transform_document=...)" % fn.__name__, "package": gen_xml.pkg_json(pkg)}, True)
+                break
+            elif a[1] and a[0] != "raised":
+                dist["api_identity_with_messages"] = dist.get("api_identity_with_messages", 0) + 1
     ctx.coverage["traces_validated_against_impl"] = len(terms)
     ctx.coverage["input_distribution"] = dist
     ctx.coverage["rule"] = ("random document trees (tables in tables, links, images) x entry point {paragraph, run} x transform family {identity, restyle, drop last "
